@@ -5,6 +5,9 @@
 #![feature(allocator_api)]
 #![allow(unused_imports, unused_variables, dead_code)]
 use vstd::prelude::*;
+// the imports of the source files the items come from (path spelling is not semantics)
+use core::marker::PhantomData;
+use core::ops::{Bound, ControlFlow};
 use core::alloc::Allocator;
 verus! {
 
